@@ -37,6 +37,8 @@ def StepE (G : Gram) (j : Nat) (fr : Frame) (after : List Tok) : Prop :=
       (G.led o = some (j, .key) ∧ x.isKeySpec = true ∧ ParsesE G G.top x after)
   | .typed _ _ => False
   | .post o c e => ∃ eo, G.led o = some (j, .bracket c eo) ∧ BodyE G eo e c after
+  | .arrow o s a => G.led o = some (j, .arrow) ∧ s.isArrowSpec = true ∧ a.isGroup = true ∧
+      ParsesE G G.top s (a.yield ++ after) ∧ ParsesE G G.top a after
 
 def FramesE (G : Gram) (j : Nat) : List Frame → List Tok → Prop
   | [], rest => StopE G (j + 1) rest ∧ (∀ o tl kd, rest = .op o :: tl → G.led o ≠ some (j, kd))
@@ -127,6 +129,22 @@ theorem tail_complete (G : Gram) (j : Nat) (lk : LKind) : ∀ (frs : List Frame)
           | atom k n => simp only [List.cons_append] at he' ⊢; simp [he']; exact ih'
           | ty n => simp only [List.cons_append] at he' ⊢; simp [he']; exact ih'
           | op o' => simp only [List.cons_append] at he' ⊢; simp [he']; exact ih'
+    | arrow o s a =>
+      have hmul : NN G * (1 + need s + need a + needs frs) = NN G + NN G * need s + NN G * need a + NN G * needs frs := by
+        rw [Nat.mul_add, Nat.mul_add, Nat.mul_add, Nat.mul_one]
+      have hsf : NN G * need s ≤ g' := by simp only [needs, Frame.need] at hg; omega
+      have haf : NN G * need a ≤ g' := by simp only [needs, Frame.need] at hg; omega
+      have ih' := ih (.arrow o l s a) rest hrest g' hg'
+      simp only [StepE] at hstep
+      obtain ⟨hled, hspec, hgrp, hs, ha⟩ := hstep
+      have hs' := hs g' (by omega)
+      have ha' := ha g' (by omega)
+      simp only [ctxToks, Frame.toks, List.cons_append, List.append_assoc, ebnfTail, hled, beq_self_eq_true, if_true]
+      rw [hs']
+      simp only [hspec, if_true]
+      rw [ha']
+      simp only [hgrp, if_true]
+      exact ih'
 
 section
 variable {G : Gram}
@@ -138,7 +156,8 @@ theorem led_lt (hG : GramOK G) {o j : Nat} {kd : Kind} (h : G.led o = some (j, k
   | none => exact hG.lkind_lt j _ (hk.2.1 rfl)
   | typed => exact hG.lkind_lt j _ (hk.2.2.1 rfl)
   | bracket c e => exact hG.lkind_lt j _ (hk.2.2.2.1 ⟨c, e, rfl⟩)
-  | key => exact hG.lkind_lt j _ (hk.2.2.2.2 rfl)
+  | key => exact hG.lkind_lt j _ (hk.2.2.2.2.1 rfl)
+  | arrow => exact hG.lkind_lt j _ (hk.2.2.2.2.2 rfl)
 
 theorem led_not_prefix (hG : GramOK G) {o j : Nat} {kd : Kind} (h : G.led o = some (j, kd)) :
     G.lkind j ≠ some .prefix := by
@@ -148,7 +167,8 @@ theorem led_not_prefix (hG : GramOK G) {o j : Nat} {kd : Kind} (h : G.led o = so
   | none => rw [hk.2.1 rfl]; simp
   | typed => rw [hk.2.2.1 rfl]; simp
   | bracket c e => rw [hk.2.2.2.1 ⟨c, e, rfl⟩]; simp
-  | key => rw [hk.2.2.2.2 rfl]; simp
+  | key => rw [hk.2.2.2.2.1 rfl]; simp
+  | arrow => rw [hk.2.2.2.2.2 rfl]; simp
 
 theorem wf_left (G : Gram) {t l : Tree} : (∃ o r, t = .bin o l r) ∨ (∃ o n, t = .typed o l n) ∨ (∃ o c e, t = .post o c l e) →
     wf true G t = true → wf true G l = true ∧ lvl G t ≤ lvl G l := by
@@ -178,6 +198,15 @@ theorem wf_left (G : Gram) {t l : Tree} : (∃ o r, t = .bin o l r) ∨ (∃ o n
       have e : lvl G (.post o c l e) = j := by simp only [lvl, hg]; rfl
       exact ⟨h.1.2, by rw [e]; omega⟩
     · simp at h
+
+theorem wf_left_arrow (G : Gram) {o : Nat} {l f a : Tree} (h : wf true G (.arrow o l f a) = true) :
+    wf true G l = true ∧ lvl G (.arrow o l f a) ≤ lvl G l := by
+  simp only [wf] at h
+  split at h
+  · rename_i j hg; simp at h
+    have e : lvl G (.arrow o l f a) = j := by simp only [lvl, hg]; rfl
+    exact ⟨h.1.1.2, by rw [e]; omega⟩
+  · simp at h
 
 /-- a derivation that starts with a prefix operator of level `j` is itself of level ≤ `j` -/
 theorem first_op_level (hG : GramOK G) (hC : GramOKC G) : ∀ t, wf true G t = true →
@@ -233,6 +262,17 @@ theorem first_op_level (hG : GramOK G) (hC : GramOKC G) : ∀ t, wf true G t = t
       obtain ⟨rfl, -⟩ := hy
       have := ihl hwl p as j hly hp
       omega
+  | arrow o l f a ihl _ _ =>
+    intro h p tl j hy hp
+    obtain ⟨hwl, hlv⟩ := wf_left_arrow G h
+    have hso := wf_startsOpen G l hwl
+    cases hly : l.yield with
+    | nil => simp [hly, startsOpen] at hso
+    | cons a' as =>
+      simp only [Tree.yield, hly, List.cons_append, List.cons.injEq] at hy
+      obtain ⟨rfl, -⟩ := hy
+      have := ihl hwl p as j hly hp
+      omega
 
 theorem need_pos (G : Gram) : ∀ t, wf true G t = true → 1 ≤ need t := by
   intro t h
@@ -271,6 +311,11 @@ theorem lvl_le_top (hG : GramOK G) : ∀ t, wf true G t = true → lvl G t ≤ G
     simp only [wf] at h
     split at h
     · rename_i j c' eo hg; have := led_lt hG hg; simp [lvl, hg]; omega
+    · simp at h
+  | arrow o l f a =>
+    simp only [wf] at h
+    split at h
+    · rename_i j hg; have := led_lt hG hg; simp [lvl, hg]; omega
     · simp at h
 
 /-- the induction hypothesis: every derivation needing at most `n` activations is parsed from any level below its own -/
@@ -356,6 +401,11 @@ theorem frames_stop (hG : GramOK G) (j : Nat) : ∀ (tl : List Frame) (rest : Li
       obtain ⟨rfl, -⟩ := hr
       obtain ⟨eo, hl, -⟩ := hstep
       rw [hl] at hg; simp at hg; omega
+    | arrow o1 s a =>
+      simp only [ctxToks, Frame.toks, List.cons_append, List.cons.injEq, Tok.op.injEq] at hr
+      obtain ⟨rfl, -⟩ := hr
+      obtain ⟨hl, -⟩ := hstep
+      rw [hl] at hg; simp at hg; omega
 
 /-- base of a left spine: an operand of a strictly higher level, then the loop of level `j` -/
 theorem baseE (hG : GramOK G) {n : Nat} (IH : CompleteE G n) (j : Nat) (lk : LKind) (hlk : G.lkind j = some lk)
@@ -380,6 +430,7 @@ theorem baseE (hG : GramOK G) {n : Nat} (IH : CompleteE G n) (j : Nat) (lk : LKi
 def isLoopAt (G : Gram) (j : Nat) : Tree → Prop
   | .bin o _ _ => G.led o = some (j, .left) ∨ G.led o = some (j, .key)
   | .post o c _ _ => ∃ eo, G.led o = some (j, .bracket c eo)
+  | .arrow o _ _ _ => G.led o = some (j, .arrow)
   | _ => False
 
 theorem stopE_top (hG : GramOK G) (rest : List Tok) : StopE G G.top rest := by
@@ -473,6 +524,7 @@ theorem spineE (hG : GramOK G) {n : Nat} (IH : CompleteE G n) (j : Nat) (lk : LK
           rcases this with h | h <;> simp at h
         | typed => simp [wf, hg] at hwf
         | bracket c e => simp [wf, hg] at hwf
+        | arrow => simp [wf, hg] at hwf
       · have hn : need (Tree.bin o l x) ≤ n := by
           rcases hor with h | h
           · exact h
@@ -511,6 +563,48 @@ theorem spineE (hG : GramOK G) {n : Nat} (IH : CompleteE G n) (j : Nat) (lk : LK
       | none => simp [wf, hg] at hwf
       | typed => simp [wf, hg] at hwf
       | key => simp [wf, hg] at hwf
+      | arrow => simp [wf, hg] at hwf
+  | arrow o l s a ihl _ _ =>
+    intro hn1 hwf hlv hor tl rest hfr f hf
+    have hnl : need l ≤ n := by simp [need] at hn1; omega
+    have hns : need s ≤ n := by simp [need] at hn1; omega
+    have hna : need a ≤ n := by simp [need] at hn1; omega
+    cases hg : G.led o with
+    | none => simp [wf, hg] at hwf
+    | some v =>
+      obtain ⟨jo, kind⟩ := v
+      have hlvs : lvl G (.arrow o l s a) = jo := by simp [lvl, hg]
+      cases kind with
+      | arrow =>
+        simp [wf, hg] at hwf
+        obtain ⟨⟨⟨⟨⟨hll, hspec⟩, hgrp⟩, hwl⟩, hws⟩, hwa⟩ := hwf
+        by_cases hj : jo = j
+        · subst hj
+          have hsl : G.top ≤ lvl G s := by
+            cases s <;> simp [Tree.isArrowSpec] at hspec <;> simp [lvl]
+          have hal : G.top ≤ lvl G a := by
+            cases a <;> simp [Tree.isGroup] at hgrp <;> simp [lvl]
+          have hs : ParsesE G G.top s (a.yield ++ (ctxToks tl ++ rest)) :=
+            IH s hns hws G.top hsl (Nat.le_refl _) _ (stopE_top hG _)
+          have ha : ParsesE G G.top a (ctxToks tl ++ rest) :=
+            IH a hna hwa G.top hal (Nat.le_refl _) _ (stopE_top hG _)
+          have := ihl (by omega) hwl hll (Or.inl hnl) (.arrow o s a :: tl) rest
+            ⟨⟨hg, hspec, hgrp, hs, ha⟩, hfr⟩ f (by
+              simp only [needs, Frame.need]; simp only [need] at hf
+              rw [show need l + (1 + need s + need a + needs tl) = 1 + need l + need s + need a + needs tl by omega]; exact hf)
+          simpa [Tree.yield, ctxToks, Frame.toks, plug, Frame.apply, List.append_assoc] using this
+        · have hn : need (Tree.arrow o l s a) ≤ n := by
+            rcases hor with h | h
+            · exact h
+            · simp only [isLoopAt, hg, Option.some.injEq, Prod.mk.injEq] at h
+              exact absurd h.1 hj
+          have hwf' : wf true G (.arrow o l s a) = true := by simp [wf, hg, hll, hspec, hgrp, hwl, hws, hwa]
+          exact baseE hG IH j lk hlk hloop _ hn hwf' (by rw [hlvs] at hlv ⊢; omega) tl rest hfr f hf
+      | left => simp [wf, hg] at hwf
+      | none => simp [wf, hg] at hwf
+      | typed => simp [wf, hg] at hwf
+      | key => simp [wf, hg] at hwf
+      | bracket c e => simp [wf, hg] at hwf
 
 theorem framesE_nil (G : Gram) (j : Nat) (rest : List Tok) (h : StopE G j rest) : FramesE G j [] rest := by
   refine ⟨h.mono (Nat.le_succ j), ?_⟩
@@ -601,7 +695,7 @@ theorem ownE (hG : GramOK G) (hC : GramOKC G) {n : Nat} (IH : CompleteE G n) (t 
         simpa [ctxToks, plug] using this
       | key =>
         intro f hf
-        have := spineE hG IH j .postfix (hkinds.2.2.2.2 rfl) (Or.inr rfl) (.bin o l r) hn hwf (by rw [hlvs]; exact Nat.le_refl _)
+        have := spineE hG IH j .postfix (hkinds.2.2.2.2.1 rfl) (Or.inr rfl) (.bin o l r) hn hwf (by rw [hlvs]; exact Nat.le_refl _)
           (Or.inr (Or.inr hg)) [] rest (framesE_nil G j rest hstop) f (by simpa [needs] using hf)
         simpa [ctxToks, plug] using this
       | none =>
@@ -626,6 +720,7 @@ theorem ownE (hG : GramOK G) (hC : GramOKC G) {n : Nat} (IH : CompleteE G n) (t 
         exact htl
       | typed => simp [wf, hg] at hwf
       | bracket c e => simp [wf, hg] at hwf
+      | arrow => simp [wf, hg] at hwf
   | typed o l m =>
     have hnl : need l ≤ n := by simp [need] at hn; omega
     cases hg : G.led o with
@@ -658,6 +753,7 @@ theorem ownE (hG : GramOK G) (hC : GramOKC G) {n : Nat} (IH : CompleteE G n) (t 
       | none => simp [wf, hg] at hwf
       | key => simp [wf, hg] at hwf
       | bracket c e => simp [wf, hg] at hwf
+      | arrow => simp [wf, hg] at hwf
   | post o c l e =>
     cases hg : G.led o with
     | none => simp [wf, hg] at hwf
@@ -677,6 +773,25 @@ theorem ownE (hG : GramOK G) (hC : GramOKC G) {n : Nat} (IH : CompleteE G n) (t 
       | none => simp [wf, hg] at hwf
       | typed => simp [wf, hg] at hwf
       | key => simp [wf, hg] at hwf
+      | arrow => simp [wf, hg] at hwf
+  | arrow o l s a =>
+    cases hg : G.led o with
+    | none => simp [wf, hg] at hwf
+    | some v =>
+      obtain ⟨j, kind⟩ := v
+      have hlvs : lvl G (.arrow o l s a) = j := by simp [lvl, hg]
+      rw [hlvs] at hstop ⊢
+      cases kind with
+      | arrow =>
+        intro f hf
+        have := spineE hG IH j .left ((hG.led_kind o j _ hg).2.2.2.2.2 rfl) (Or.inl rfl) (.arrow o l s a) hn hwf
+          (by rw [hlvs]; exact Nat.le_refl _) (Or.inr hg) [] rest (framesE_nil G j rest hstop) f (by simpa [needs] using hf)
+        simpa [ctxToks, plug] using this
+      | left => simp [wf, hg] at hwf
+      | none => simp [wf, hg] at hwf
+      | typed => simp [wf, hg] at hwf
+      | key => simp [wf, hg] at hwf
+      | bracket c e => simp [wf, hg] at hwf
 
 /-- **completeness of the reference parser**, all levels -/
 theorem ebnf_complete_all (hG : GramOK G) (hC : GramOKC G) : ∀ n, CompleteE G n := by
@@ -711,6 +826,7 @@ theorem need_le_yield' : ∀ t : Tree, need t ≤ t.yield.length := by
   | bin o l r ihl ihr => simp [need, Tree.yield]; omega
   | typed o l n ih => simp [need, Tree.yield]; omega
   | post o c l e ihl ihe => simp [need, Tree.yield]; omega
+  | arrow o l f a ihl ihf iha => simp [need, Tree.yield]; omega
 
 /-- **completeness of the reference parser**: every EBNF derivation from the start symbol is returned on its tokens -/
 theorem ebnfParse_complete (hG : GramOK G) (hC : GramOKC G) (t : Tree) (hd : derivable G 0 t = true) :
